@@ -16,7 +16,7 @@ REQUIRED_THEOREMS = ['nearest', 'nearest_desc', 'bounds_cell', 'bounds_cell_desc
                      'model_nearest', 'model_bounds']
 RULE = ('strictly monotonic coordinates, ascending and descending, 2..7 cells, three bounds representations '
         '(none, 1-D edges, n x 2), methods nearest/bounds/exact, clean mask/none, bounds ignore/warn/error, '
-        'left/right None/nan/value; coordinate variables of type float64, float32 and integer; datetime queries (time2idx on an "hours since" coordinate: naive, UTC and +05:30 / -05:00 / +01:00 datetimes); queries include values 2^-30 beside every node/edge; stream "pow2": power-of-two spacings (np.interp exact) with queries at '
+        'left/right None/nan/value; coordinate variables of type float64, float32 and integer; queries on a file object that answered a query for another coordinate of the same length before its values were overwritten in place; units whose reference time names an hour only (06Z, 06 UTC, 06, 6, T06Z); datetime queries (time2idx on an "hours since" coordinate: naive, UTC and +05:30 / -05:00 / +01:00 datetimes); queries include values 2^-30 beside every node/edge; stream "pow2": power-of-two spacings (np.interp exact) with queries at '
         'centres, edges, exact midpoints (ties), interior and outside; stream "margin": arbitrary dyadic '
         'spacings with queries at nodes/edges exactly or at least 1/16 cell away from every decision boundary; '
         'non-trivial = at least one query strictly inside the domain and not on a node; datetime look-ups also on \'days since\' coordinates (dyadic day numbers, units coarser than the spacing)')
@@ -130,7 +130,12 @@ def _case(rng):
             e = [x * k_ for x in e]
             edges = ('e1:' + lib.show_list(e, lib.show_rat)) if ekind == 'e1' else \
                 ('b2:' + lib.show_rows([[e[i], e[i + 1]] for i in range(n)], lib.show_rat))
-    return dict(stream=stream, method=method, clean=rng.choice(['mask', 'mask', 'none']),
+    # refhour: the reference time of the units names an hour only ('… since 2000-01-01 06 UTC' and other spellings), the
+    # stored numbers count from there; prior: the same file object answered a query for another coordinate of the same
+    # length before its coordinate (and edges) were overwritten in place with the ones of this case
+    refhour = rng.choice(['06Z', '06 UTC', '06', '6', '06:00', 'T06Z']) if (tz and rng.random() < 0.4) else None
+    prior = rng.random() < 0.2
+    return dict(stream=stream, method=method, clean=rng.choice(['mask', 'mask', 'none']), refhour=refhour, prior=prior,
                 bmode=rng.choice(['ignore', 'warn', 'error']), left=left, right=right, cdtype=cdtype, tz=tz, tunit=tunit,
                 coords=[lib.show_rat(x) for x in c], edges=edges, vals=[lib.show_rat(x) for x in vals])
 
@@ -150,23 +155,37 @@ def _mkfile(case):
     f = pnc.PseudoNetCDFFile()
     f.createDimension('x', len(c))
     v = f.createVariable('x', case.get('cdtype', 'd'), ('x',))
-    v[:] = c
     days = case.get('tz') and case.get('tunit') == 'days'
+    per = 24. if days else 1.
+    off = 6. if (case.get('tz') and case.get('refhour')) else 0.       # hours between 2000-01-01 00:00 and the reference time
     if case.get('tz'):
-        v.units = '%s since 2000-01-01 00:00:00' % case.get('tunit', 'hours')
-        if days:
-            v[:] = [x / 24. for x in c]
+        rh = case.get('refhour')
+        ref = '2000-01-01 00:00:00' if not rh else ('2000-01-01T06Z' if rh == 'T06Z' else '2000-01-01 ' + rh)
+        v.units = '%s since %s' % (case.get('tunit', 'hours'), ref)
     e = case['edges']
+    b, ed = None, None
     if e.startswith('e1:'):
-        ed = [float(Fraction(x)) / (24. if days else 1.) for x in e[3:].split(',')]
+        ed = [(float(Fraction(x)) - off) / per for x in e[3:].split(',')]
         f.createDimension('xe', len(ed))
         b = f.createVariable('x_bounds', 'd', ('xe',))
-        b[:] = ed
     elif e.startswith('b2:'):
-        rows = [[float(Fraction(x)) / (24. if days else 1.) for x in r.split(',')] for r in e[3:].split(';')]
+        ed = [[(float(Fraction(x)) - off) / per for x in r.split(',')] for r in e[3:].split(';')]
         f.createDimension('nv', 2)
         b = f.createVariable('x_bnds', 'd', ('x', 'nv'))
-        b[:] = rows
+    final = [(x - off) / per for x in c]
+    if case.get('prior'):
+        other = np.array(final)[::-1] * 3 + 1 if len(c) > 1 else np.array(final) + 5
+        v[:] = other
+        if b is not None:
+            b[:] = np.array(ed)[::-1] * 3 + 1
+        with lib.pnc_warnings():
+            try:
+                f.val2idx('x', np.asarray(other, dtype='d')[:1], method=case['method'])
+            except Exception:
+                pass
+    v[:] = final
+    if b is not None:
+        b[:] = ed
     return f
 
 
